@@ -110,13 +110,60 @@ func TestVerifC16(t *testing.T) {
 		steps := 3 + r.IntN(40)
 		bulk := ci%8 == 1 // a history that crosses the capacity (clear in the middle of a computation)
 		var trace []string
+		var snaps []map[[31]byte][]byte
 		sig := []byte{}
 		for step := 0; step < steps; step++ {
-			op := r.IntN(10)
+			op := r.IntN(13)
 			if step == 0 {
 				op = 0
 			}
 			switch {
+			case op == 10 || op == 11: // swap: some keys leave, as many earlier-removed keys come back with the value they had (same
+				// number of entries, every leaf still in the cache, another key set)
+				keys := vC16Sorted(cur)
+				var back [][31]byte
+				for _, k := range removed {
+					if _, in := cur[k]; !in && oldVals[k] != nil {
+						dup := false
+						for _, b := range back {
+							dup = dup || b == k
+						}
+						if !dup {
+							back = append(back, k)
+						}
+					}
+				}
+				j := min(len(keys), len(back), 1+r.IntN(3))
+				for q := 0; q < j; q++ {
+					i := r.IntN(len(keys))
+					oldVals[keys[i]] = cur[keys[i]]
+					removed = append(removed, keys[i])
+					delete(cur, keys[i])
+					keys = append(keys[:i], keys[i+1:]...)
+				}
+				for q := 0; q < j; q++ {
+					cur[back[q]] = oldVals[back[q]]
+				}
+				if j > 0 {
+					h.Inc("steps_swapping_keys_at_equal_count")
+				}
+				trace = append(trace, "swap")
+			case op == 12: // back to the entry set of an earlier computation (a fork / rollback), possibly of equal size
+				if len(snaps) > 0 {
+					sn := snaps[r.IntN(len(snaps))]
+					for k, v := range cur {
+						if _, in := sn[k]; !in {
+							oldVals[k] = v
+							removed = append(removed, k)
+						}
+					}
+					cur = map[[31]byte][]byte{}
+					for k, v := range sn {
+						cur[k] = v
+					}
+					h.Inc("steps_returning_to_an_earlier_entry_set")
+				}
+				trace = append(trace, "rollback")
 			case op <= 2: // add
 				k := 1 + r.IntN(12)
 				if bulk && r.IntN(4) == 0 {
@@ -225,6 +272,13 @@ func TestVerifC16(t *testing.T) {
 				h.Inc("computations_on_a_warm_cache")
 			}
 			sig = append(sig, model[:4]...)
+			if len(snaps) < 6 && r.IntN(3) == 0 {
+				sn := map[[31]byte][]byte{}
+				for k, v := range cur {
+					sn[k] = v
+				}
+				snaps = append(snaps, sn)
+			}
 		}
 		h.Distinct("hist", sig)
 		if ci < 2 {
